@@ -1,6 +1,7 @@
 -- GENERATED from /repo/src/Imath by harness/sym (T = Sym path extraction); do not edit.
 import ImathVerif.Basic.Types
 import ImathVerif.Gen.C09Frame
+import ImathVerif.Gen.C09Quat
 import ImathVerif.Gen.Leaf
 set_option linter.unusedVariables false
 namespace ImathVerif.Gen
